@@ -829,6 +829,71 @@ func (m *machine) run(ops []Op) []Obs {
 				out = append(out, m.obs("fail", 0, d))
 			}
 			m.judgeState(d, pre)
+		case "racerel":
+			// schedule: resolveLayer(r, l) runs up to the point right after cacheLayer; release(r, t) runs; resolveLayer finishes.
+			// Printed for the model as Resolve r l f; Release r t (resolveLayer's effects happen in one locked section).
+			valid := false
+			for _, l := range m.image(o.R) {
+				if l == o.L {
+					valid = true
+				}
+			}
+			if !valid {
+				d := m.dump()
+				out = append(out, m.obs("ok", 0, d), m.obs("err", 0, d))
+				continue
+			}
+			m.g.setFaults(false, o.Fl)
+			reached, open := store.VerifArmGate(m.spec(o.R).String() + "/" + blobs[o.L].dgst.String())
+			done := make(chan struct{})
+			go func() {
+				m.lm.VerifResolveLayer(context.Background(), m.spec(o.R), layerDesc(o.L))
+				close(done)
+			}()
+			atGate := false
+			select {
+			case <-reached:
+				atGate = true
+				m.stats["result.racerel.gate"]++
+			case <-done: // memo hit or resolution error: the call never caches
+			}
+			d1 := m.dump()
+			out = append(out, m.obs("ok", 0, d1))
+			k := [2]int{o.R, o.T}
+			before := m.ownTotal(o.R)
+			n, err := m.lm.VerifRelease(context.Background(), m.spec(o.R), tocDigest(o.T))
+			hadUse := m.own[k] > 0
+			if hadUse {
+				m.own[k]--
+			}
+			open()
+			<-done
+			m.quiesce()
+			m.noteInjected(o.R)
+			m.g.setFaults(false, nil)
+			d := m.dump()
+			if err != nil {
+				out = append(out, m.obs("err", 0, d))
+			} else {
+				out = append(out, m.obs("count", n, d))
+				if atGate && n == 0 {
+					m.stats["result.racerel.dropped"]++
+				}
+			}
+			if hadUse && before > 0 && m.ownTotal(o.R) == 0 {
+				m.relZero[o.R] = true
+				for _, e := range d.memo {
+					if e[0] == o.R && e[2] != 0 {
+						m.fail("", "layer %d of ref %d is recorded as resolved after the last release of the image (release raced with its resolution)", e[1], e[0])
+					}
+				}
+				for l := range blobs {
+					if !m.g.injected[blobs[l].dgst] {
+						delete(m.faulted, [2]int{o.R, l})
+					}
+				}
+			}
+			m.judgeState(d, d1)
 		case "expire":
 			// TTL timers of the resolver's layer and blob cache fire for (ref, layer digest)
 			if o.L >= 0 && o.L < nBlobs {
@@ -884,6 +949,8 @@ func coqOp(o Op) string {
 		return fmt.Sprintf("Probe %d %d", o.R, o.T)
 	case "expire":
 		return fmt.Sprintf("Expire %d %d", o.R, o.L)
+	case "racerel":
+		return fmt.Sprintf("Resolve %d %d %s; Release %d %d", o.R, o.L, hx.CoqBool(len(o.Fl) > 0), o.R, o.T)
 	}
 	panic("op")
 }
@@ -1030,7 +1097,7 @@ func genCase(r *hx.Rng, tier string) Case {
 	grp := 0
 	for len(c.Ops) < nops {
 		ref := pickRef()
-		switch r.Pick(30, 6, 22, 24, 5, 4, 5, 4, 5) {
+		switch r.Pick(30, 6, 22, 24, 5, 4, 5, 4, 5, 6) {
 		case 0:
 			k := "diff"
 			if r.Bool() {
@@ -1086,6 +1153,28 @@ func genCase(r *hx.Rng, tier string) Case {
 			}
 		case 7:
 			c.Ops = append(c.Ops, Op{Op: "probe", R: ref, T: pickToc(ref)})
+		case 9:
+			// a release racing with the resolution of the layer it releases (or of a sibling)
+			if ref < len(w.Images) {
+				img := w.Images[ref]
+				l := img[r.Intn(len(img))]
+				t := w.Ltoc[l]
+				if t < 0 || r.Chance(1, 4) {
+					t = pickToc(ref)
+				}
+				if len(used) > 0 && r.Chance(1, 2) {
+					u := used[len(used)-1]
+					if u[0] == ref {
+						t = u[1]
+						used = used[:len(used)-1]
+					}
+				}
+				o := Op{Op: "racerel", R: ref, L: l, T: t}
+				if r.Chance(1, 6) {
+					o.Fl = []int{l}
+				}
+				c.Ops = append(c.Ops, o)
+			}
 		case 8:
 			if ref < len(w.Images) {
 				c.Ops = append(c.Ops, Op{Op: "expire", R: ref, L: w.Images[ref][r.Intn(len(w.Images[ref]))]})
@@ -1112,6 +1201,8 @@ func corpus() []Case {
 		{World: std, Ops: []Op{{Op: "lookup", K: "diff", R: 0, T: 0, Grp: 1}, {Op: "lookup", K: "diff", R: 0, T: 1, Grp: 1}, {Op: "lookup", K: "diff", R: 0, T: 51, Grp: 1}, {Op: "use", R: 0, T: 1}, {Op: "lookup", K: "blob", R: 1, T: 1}, {Op: "release", R: 0, T: 1}, {Op: "probe", R: 1, T: 1}}},
 		// resolver-cache expiry: after the release the layer is only in the resolver's TTL cache (fault ignored); after expiry the fault bites
 		{World: std, Ops: []Op{{Op: "lookup", K: "diff", R: 1, T: 1}, {Op: "use", R: 1, T: 1}, {Op: "release", R: 1, T: 1}, {Op: "lookup", K: "diff", R: 1, T: 1, Fl: []int{1}}, {Op: "use", R: 1, T: 1}, {Op: "release", R: 1, T: 1}, {Op: "expire", R: 1, L: 1}, {Op: "lookup", K: "diff", R: 1, T: 1, Fl: []int{1}}, {Op: "expire", R: 1, L: 2}, {Op: "lookup", K: "diff", R: 1, T: 2}}},
+		// F28: the last use of a layer is released while a resolveLayer of that layer is between cacheLayer and its bookkeeping
+		{World: std, Ops: []Op{{Op: "use", R: 1, T: 1}, {Op: "racerel", R: 1, L: 1, T: 1}, {Op: "lookup", K: "diff", R: 1, T: 1}, {Op: "lookup", K: "diff", R: 1, T: 1}, {Op: "use", R: 1, T: 2}, {Op: "racerel", R: 1, L: 1, T: 2}, {Op: "lookup", K: "blob", R: 1, T: 1}}},
 		// sub-steps interleaved with a release
 		{World: std, Ops: []Op{{Op: "loadref", R: 0}, {Op: "resolve", R: 0, L: 0}, {Op: "use", R: 0, T: 0}, {Op: "resolve", R: 0, L: 1}, {Op: "release", R: 0, T: 0}, {Op: "resolve", R: 0, L: 0}, {Op: "probe", R: 0, T: 0}, {Op: "resolve", R: 0, L: 5}, {Op: "probe", R: 0, T: 1}}},
 	}
